@@ -118,7 +118,7 @@ def rp_traces(ev, prop, seed, scenarios, label="traces"):
     h = cl.run_harness(name, ["rp-trace", "--prop", prop, "--seed", str(seed), "--scenarios", str(scenarios), "--trace", trace])
     ev.add_harness("seeded drivers on request::Parser (recorded)", h, as_traces=False)
     cfg = "SPECIFICATION TraceSpec\nCONSTANT Bind = %s\nPOSTCONDITION Accepted\nCHECK_DEADLOCK FALSE\n" % cl.tla_set(RP_BIND[prop])
-    events, rejected = cl.validate_trace(ev, prop, name, "Trace_ReqParser", cfg, trace,
+    events, rejected = cl.validate_trace(ev, prop, name, "Trace_Parsers", cfg, trace,
                                          {"cmd": "rp-trace", "prop": prop, "seed": seed, "scenarios": scenarios})
     runs = (h.get("extra") or {}).get("trace_runs", 0)
     ev.traces += runs
@@ -127,7 +127,7 @@ def rp_traces(ev, prop, seed, scenarios, label="traces"):
     # exact configuration: implementation-shaped fields; a rejection is DRIFT, not a violation
     cfgx = "SPECIFICATION TraceSpec\nCONSTANT Bind = %s\nPOSTCONDITION Accepted\nCHECK_DEADLOCK FALSE\n" % cl.tla_set(RP_BIND[prop] + ["free"])
     if rejected == 0:
-        st = cl.run_trace_validation(name + "-exact", "Trace_ReqParser", cl.write_cfg(name + "-exact", "Trace_ReqParser.cfg", cfgx), trace)
+        st = cl.run_trace_validation(name + "-exact", "Trace_Parsers", cl.write_cfg(name + "-exact", "Trace_ReqParser.cfg", cfgx), trace)
         if st["rejected"] or not st["ok"]:
             print("DRIFT: request parser free-space accounting differs from the implementation-shaped model (%s)" % (st["rejected"][:1],))
             ev.drifts += 1
@@ -165,6 +165,9 @@ def c03(ev, tier, seed):
     if tier == "thorough":
         rp_model(ev, "C03", seed, "hostile32", 32, ["hostile", "trunc", "inter", "bound"], "all")
     rp_traces(ev, "C03", seed, 4000 if tier == "thorough" else 300)
+    # stream parser half: truncation at every offset, bad versions, aborts; every caller schedule
+    sp_model(ev, "C03", seed, "trunc", 24, ["trunc"], "tiny" if tier == "quick" else "quick", [2], ops=("cs", "c", "ss") if tier == "quick" else ("cs", "c", "co", "ss"))
+    chain_traces(ev, "C03", seed, 2000 if tier == "thorough" else 150)
     ev.exhaustive = False
     ev.assumptions = ["announced lengths above 10^9 are clamped by the lexer (TLC integers are 32-bit); no driver completes such a pair"]
 
@@ -177,6 +180,9 @@ def c04(ev, tier, seed):
                "list (due offsets); replies are compared as bytes in the replay and as decoded descriptors in traces.")
     rp_model(ev, "C04", seed, "replies", 24, ["inter", "hostile"], "all")
     rp_traces(ev, "C04", seed, 2000 if tier == "thorough" else 200)
+    # stream parser half: replies interleaved with consume_output(k)
+    sp_model(ev, "C04", seed, "replies", 24, ["replies"], "tiny" if tier == "quick" else "quick", [2], ops=("co", "c", "ss"))
+    chain_traces(ev, "C04", seed, 1500 if tier == "thorough" else 100)
     ev.exhaustive = False
     ev.assumptions = ["an unknown-type record is answered with the record's own request id (what the code and its test do)",
                       "a GetValues record with an empty body or a non-zero id gets no reply"]
@@ -198,3 +204,105 @@ def c06(ev, tier, seed):
     rp_traces(ev, "C06", seed, 1500 if tier == "thorough" else 200)
     ev.exhaustive = False
     ev.assumptions = ["buffer sizes near usize::MAX are not allocatable and outside the stated range"]
+
+
+# ---------------------------------------------------------------------------- stream parser (C02 C18, halves of C03 C04, C05)
+SP_INVARIANTS = "Geometry ContentMatchesGeometry DeliveredIsPrefix EosExact ErrExact RepliesExact OutputAccounting ErrorSticky"
+
+
+def sp_cfg(B, menu, feed, dests, emit=True, ops=("cs", "c", "co", "ss")):
+    return ("SPECIFICATION Spec\nCONSTANTS\n  B = %d\n  Menu = %s\n  Feed = \"%s\"\n  Dests = {%s}\n  ND = 1\n  Ops = %s\nVIEW View\n%s"
+            "INVARIANTS %s\nPROPERTIES StreamMonotone RejectChangesNothing ReselectKeepsBuffer\nCHECK_DEADLOCK FALSE\n"
+            % (B, cl.tla_set(menu), feed, ", ".join(str(d) for d in dests), cl.tla_set(ops), "ACTION_CONSTRAINT Emit\n" if emit else "", SP_INVARIANTS))
+
+
+def sp_model(ev, prop, seed, label, B, menu, feed, dests, timeout=2400, ops=("cs", "c", "co", "ss")):
+    name = "%s-sp-%s" % (prop, label)
+    stats, h = cl.run_tlc_piped(name, "MC_StreamParser", sp_cfg(B, menu, feed, dests, ops=ops),
+                                ["sp-replay", "--prop", prop, "--seed", str(seed), "--threads", str(cl.NCPU)],
+                                timeout=timeout, workers=max(4, cl.NCPU - 4), heap="16g")
+    ev.add_tlc("MC_StreamParser B=%d menu=%s feed=%s dests=%s" % (B, ",".join(menu), feed, dests), stats)
+    ev.add_harness("edge-cover replay on stream::Parser (%s)" % label, h)
+
+
+CHAIN_BIND = {
+    "C02": ["got", "sbuf", "count", "end", "active"],
+    "C03": ["done", "out", "conv", "room", "err", "req", "env", "left", "active", "sbuf", "olen", "boundary", "count", "end", "outcount", "got", "setstream"],
+    "C04": ["out", "outcount", "olen"],
+    "C05": ["left", "conv", "boundary", "req", "env", "got", "sbuf"],
+    "C11": ["err", "out", "conv", "done", "req", "got", "sbuf"],
+    "C18": ["active", "setstream", "got", "sbuf", "end"],
+}
+
+
+def chain_traces(ev, prop, seed, scenarios, label="chain"):
+    name = "%s-%s" % (prop, label)
+    wd = os.path.join(cl.OUT, name)
+    os.makedirs(wd, exist_ok=True)
+    trace = os.path.join(wd, "trace.ndjson")
+    h = cl.run_harness(name, ["sp-trace", "--prop", prop, "--seed", str(seed), "--scenarios", str(scenarios), "--trace", trace])
+    ev.add_harness("seeded drivers over the parser chain request -> stream -> request (recorded)", h, as_traces=False)
+    cfg = "SPECIFICATION TraceSpec\nCONSTANT Bind = %s\nPOSTCONDITION Accepted\nCHECK_DEADLOCK FALSE\n" % cl.tla_set(CHAIN_BIND[prop])
+    events, rejected = cl.validate_trace(ev, prop, name, "Trace_Parsers", cfg, trace,
+                                         {"cmd": "sp-trace", "prop": prop, "seed": seed, "scenarios": scenarios})
+    ev.traces += (h.get("extra") or {}).get("trace_runs", 0)
+    ev.extra.setdefault("trace_events_validated", 0)
+    ev.extra["trace_events_validated"] += events
+    if rejected == 0:
+        cfgx = "SPECIFICATION TraceSpec\nCONSTANT Bind = %s\nPOSTCONDITION Accepted\nCHECK_DEADLOCK FALSE\n" % cl.tla_set(CHAIN_BIND[prop] + ["free"])
+        st = cl.run_trace_validation(name + "-exact", "Trace_Parsers", cl.write_cfg(name + "-exact", "Trace_Parsers.cfg", cfgx), trace)
+        if st["rejected"] or not st["ok"]:
+            print("DRIFT: buffer-space accounting differs from the implementation-shaped model (%s)" % (st["rejected"][:1],))
+            ev.drifts += 1
+    os.remove(trace)
+
+
+@check("C02")
+def c02(ev, tier, seed):
+    ev.rule = ("MC_StreamParser: wires = 2-record preamble + sequences of stream / terminator / later-stream / GetValues / unknown / "
+               "stale Params / foreign and duplicate BeginRequest / foreign-id stream / abort / bad-version records with paddings "
+               "0,1,7,9; roles 1 and 3 (2 in menu auth); caller alphabet parse(n, None|Some(d)) x consume_stream(1|all) x compress x "
+               "consume_output(1|all) x set_stream(any), every interleaving that respects the documented preconditions. Invariants: "
+               "DeliveredIsPrefix (delivered ++ buffered is a prefix of the reference stream as wire intervals), EosExact, "
+               "ContentMatchesGeometry, Geometry. Every transition replayed on the real parser comparing BYTES; chain traces with "
+               "65535-byte records and 200 kB streams through 24-byte to 8 KiB buffers validated by Trace_Parsers. "
+               "Non-trivial: history of at least two calls / input longer than 40 bytes.")
+    if tier == "thorough":
+        sp_model(ev, "C02", seed, "mini", 24, ["mini"], "quick", [0, 2])
+        sp_model(ev, "C02", seed, "mini3-b32", 32, ["mini3"], "quick", [0, 1, 64])
+    else:
+        sp_model(ev, "C02", seed, "mini3", 24, ["mini3"], "tiny", [2])
+    chain_traces(ev, "C02", seed, 1500 if tier == "thorough" else 120)
+    ev.exhaustive = False
+    ev.assumptions = ["stream parsers are obtained through request::Parser::into_stream_parser (the only public constructor path with a Request)",
+                      "delivered bytes are located on the wire by the harness (next bytes of the active stream type and request id), then compared by TLC as intervals"]
+
+
+@check("C18")
+def c18(ev, tier, seed):
+    ev.rule = ("All 3 roles x every current selection x every requested selection (finite table, reached through set_stream in every "
+               "state of the model), over all one- and two-record sequences of the 16-symbol record alphabet (every stream type in "
+               "every order, own and foreign ids) and the mini menu; StreamMonotone, RejectChangesNothing, ReselectKeepsBuffer as "
+               "action properties; DeliveredIsPrefix covers 'never data of another stream'. Edge-cover replay + chain traces.")
+    sp_model(ev, "C18", seed, "pairs", 24, ["pairs"], "tiny", [2] if tier == "quick" else [0, 2], ops=("cs", "ss", "c"))
+    if tier == "thorough":
+        sp_model(ev, "C18", seed, "mini", 24, ["mini"], "quick", [0, 2])
+    chain_traces(ev, "C18", seed, 1000 if tier == "thorough" else 100)
+    ev.exhaustive = False
+    ev.assumptions = ["the async Request::set_stream panic on a rejected selection is observed in the connection replays (C09)"]
+
+
+@check("C05")
+def c05(ev, tier, seed):
+    ev.rule = ("Hand-offs: (1) every MC_ReqParser edge ends with into_request / into_stream_parser on a clone (leftover = wire[pos, fed)); "
+               "(2) every MC_StreamParser edge ends with into_input / into_request_parser on a clone (leftover = wire[rawLo, fed), free "
+               "space of the new parser); look-ahead 0..full buffer ending mid-header / mid-payload / mid-padding comes from the call "
+               "partitions; (3) chains of 1..3 requests through one shared buffer with callers that read everything / stop mid-stream "
+               "/ read nothing, recorded and validated by Trace_Parsers with the hand-off offsets, the next request and its "
+               "environment bound. Non-trivial: history that fed at least one byte / input longer than 40 bytes.")
+    rp_model(ev, "C05", seed, "b24", 24, ["pad", "inter", "trunc"], "quick" if tier == "quick" else "all")
+    sp_model(ev, "C05", seed, "mini3", 24, ["mini3"], "tiny" if tier == "quick" else "quick", [2], ops=("cs", "c", "ss"))
+    chain_traces(ev, "C05", seed, 3000 if tier == "thorough" else 250)
+    ev.exhaustive = False
+    ev.assumptions = ["'k separate connections' is represented by the specification's reference semantics per request (RefReq / RefStream), "
+                      "which every accepted trace event is compared against"]
